@@ -701,3 +701,68 @@ def none_test_under(rd: "ReachingDefs", g: CFG, test_node: Node, classify, scena
     if all(isinstance(v, (ast.Call, ast.Lambda, ast.Dict, ast.List, ast.Set, ast.Tuple, ast.JoinedStr)) or (isinstance(v, ast.Constant) and v.value is not None) for v in vals):
         return False
     return None
+
+
+def unbound_reads(fn_node) -> List[Tuple[ast.Name, int]]:
+    """Reads of a local of `fn_node` (a name the function assigns somewhere) at a point where it is not assigned on every path
+    from the entry: UnboundLocalError on the paths that skip the assignment.  Comprehension / lambda variables, names declared global /
+    nonlocal and names only bound by `except ... as` / `with ... as` / imports handled by the reaching-definition engine are left out."""
+    g = CFG(fn_node)
+    rd = ReachingDefs(g)
+    local_names = {d.name for n in g.live for d in rd.gen[n.id]}
+    declared = {nm for x in ast.walk(fn_node) if isinstance(x, (ast.Global, ast.Nonlocal)) for nm in x.names}
+    must = definitely_assigned(g, rd)
+    out = []
+
+    def scoped(x):
+        p = getattr(x, "_parent", None)
+        while p is not None and p is not fn_node:
+            if isinstance(p, (ast.ListComp, ast.SetComp, ast.DictComp, ast.GeneratorExp)) and any(
+                    isinstance(t, ast.Name) and t.id == x.id for gen in p.generators for t in ast.walk(gen.target)):
+                return True
+            if isinstance(p, ast.Lambda) and x.id in [a.arg for a in p.args.args + p.args.kwonlyargs]:
+                return True
+            if isinstance(p, (ast.FunctionDef, ast.AsyncFunctionDef)):
+                return True
+            p = getattr(p, "_parent", None)
+        return False
+
+    for n in g.live:
+        for x in n.walk():
+            if isinstance(x, ast.Name) and isinstance(x.ctx, ast.Load) and x.id in local_names and x.id not in rd.params and x.id not in declared:
+                if x.id in must[n.id] or any(d.name == x.id for d in rd.gen[n.id] if d.kind in ("walrus", "for", "with", "except", "import")):
+                    continue
+                if scoped(x):
+                    continue
+                if not _reachable_unassigned(g, rd, n, x.id, fn_node):
+                    continue
+                out.append((x, n.lineno))
+    return out
+
+
+def _reachable_unassigned(g: CFG, rd: "ReachingDefs", node: Node, name: str, fn_node) -> bool:
+    """Is there a path from the entry to `node` that assigns `name` nowhere and is consistent with the guards of `node` on tests that cannot
+    change (tests over parameters / names the function never re-binds)?  Correlated branches (`if flag: x = ...` ... `if flag: use(x)`)
+    are thereby not reported."""
+    stored = {x.id for x in ast.walk(fn_node) if isinstance(x, ast.Name) and isinstance(x.ctx, (ast.Store, ast.Del))}
+
+    def invariant(t):
+        return all(not (isinstance(y, ast.Name) and y.id in stored) for y in ast.walk(t.ast)) and not any(isinstance(y, (ast.Call, ast.Await)) for y in ast.walk(t.ast))
+
+    want = {(src(t.ast), pol) for t, pol in g.guards(node) if t.kind == "test" and invariant(t)}
+    seen, stack = set(), [g.entry]
+    while stack:
+        n = stack.pop()
+        if n.id in seen:
+            continue
+        seen.add(n.id)
+        if n is node:
+            return True
+        if any(d.name == name for d in rd.gen[n.id]):
+            continue
+        for m, l in n.succ:
+            if m.kind == "branch" and m.extra["test"].kind == "test" and isinstance(m.extra["polarity"], bool):
+                if (src(m.extra["test"].ast), not m.extra["polarity"]) in want:
+                    continue
+            stack.append(m)
+    return False
